@@ -242,3 +242,60 @@ package core
 //@   ensures nothing_written: calls_WriteAggregatedBloomFilter == old(calls_WriteAggregatedBloomFilter)
 // InsertWithBatch / OnReorgWithBatch only forward their batch to insert / onReorg; they carry no
 // contract here because the state back-ends' contracts log calls of them under their own names.
+
+// ---- hash pre-images: every protocol field is in its slot (C02) ------------------------------------
+// DECLARE v3 (SNIP-8): the Poseidon element list, with the two data arrays hashed separately.
+//@ ghost func poseidonArrayOf(elems []*felt.Felt) felt.Felt
+//@ ghost func tipResources(tip uint64, rb _) felt.Felt
+//@ extern func github.com/NethermindEth/juno/core/crypto.PoseidonArray
+//@   ensures result == poseidonArrayOf(elems)
+//@ extern func github.com/NethermindEth/juno/core/crypto.PoseidonElems
+//@   logged
+//@ func tipAndResourcesHash
+//@   trusted
+//@   ensures result == tipResources(tip, resourceBounds)
+//@ extern func github.com/NethermindEth/juno/core/felt.FromUint64
+//@ func (*TransactionVersion).AsFelt
+//@   trusted
+//@   ensures result == v
+//@ func errInvalidTransactionVersion
+//@   trusted
+//@   ensures result != nil
+//@ func declareTransactionHash
+//@   props C02
+//@   arith int
+//@   nosafe
+//@   requires d != nil && d.Version != nil && n != nil
+//@   modifies *
+//@   assigns calls_PoseidonElems, arg_PoseidonElems_elems, calls_PedersenElems, arg_PedersenElems_elems
+//@   callsite PoseidonElems@*: v3_preimage: len(elems) == 11 && elems[0] == declareFelt && elems[1] == d.Version && elems[2] == d.SenderAddress && *elems[3] == tipResources(d.Tip, d.ResourceBounds) && *elems[4] == poseidonArrayOf(d.PaymasterData) && elems[5] == chainIDOf(n) && elems[6] == d.Nonce && *elems[8] == poseidonArrayOf(d.AccountDeploymentData) && elems[9] == d.ClassHash && elems[10] == d.CompiledClassHash
+//@   ensures v3_recomputed: result1 == nil && versionIs(*d.Version, 3) && !versionIs(*d.Version, 0) && !versionIs(*d.Version, 1) && !versionIs(*d.Version, 2) ==> calls_PoseidonElems == old(calls_PoseidonElems) + 1
+
+// Block hash from 0.13.4 on: the protocol version committed to is the header's own string, byte for
+// byte (not a normalised rendering of it), and state root, sequencer and parent hash are in their
+// slots. The four commitments are computed by concurrent tasks (outside the subset: their effect is
+// "anything"); the final element list is what is under contract.
+//@ extern func github.com/sourcegraph/conc.NewWaitGroup
+//@ extern func github.com/sourcegraph/conc.(*WaitGroup).Go
+//@   modifies *
+//@ extern func github.com/sourcegraph/conc.(*WaitGroup).Wait
+//@   modifies *
+//@ extern func github.com/NethermindEth/juno/core/felt.(*Felt).SetBytes
+//@   logged as FeltSetBytes
+//@   ensures result == z
+//@ extern func github.com/NethermindEth/juno/core/felt.(*Felt).SetUint64
+//@   ensures result == z
+//@ func ConcatCounts
+//@   trusted
+//@ func gasPricesHash
+//@   trusted
+//@ func post0134Hash
+//@   props C02
+//@   arith int
+//@   nosafe
+//@   requires b != nil && b.Header != nil && b.L1DataGasPrice != nil && b.L2GasPrice != nil
+//@   modifies *
+//@   assigns calls_PoseidonElems, arg_PoseidonElems_elems, calls_FeltSetBytes, arg_FeltSetBytes_e
+//@   callsite SetBytes@*: version_as_in_the_header: $1 == bytes(b.ProtocolVersion)
+//@   callsite PoseidonElems@*: block_preimage: len(elems) == 14 && elems[0] == starknetBlockHash1 && elems[2] == b.GlobalStateRoot && elems[3] == b.SequencerAddress && elems[12] == &felt.Zero && elems[13] == b.ParentHash
+//@   ensures hashed_once: result2 == nil ==> calls_PoseidonElems == old(calls_PoseidonElems) + 1 && calls_FeltSetBytes == old(calls_FeltSetBytes) + 1
